@@ -57,7 +57,7 @@ def run_one(m):
         lines, rc_any = [], 0
         for pid in props:
             r = subprocess.run([os.path.join(VERIF, "bin", "wmcheck"), "-property", pid, "-repo", dst,
-                                "-no-evidence", "-verif", VERIF + "/.nonexistent-known"], env=ENV, capture_output=True, text=True)
+                                "-no-evidence", "-verif", VERIF], env=ENV, capture_output=True, text=True)
             if r.returncode == 2:
                 res["status"] = "INTERNAL"
                 res["detail"] = r.stdout[-600:] + r.stderr[-300:]
